@@ -273,7 +273,7 @@ class Worker:
             real = [fill(args[0], 9)]
         elif m == "data_slice":
             b["a"], b["b"] = enc_int(args[0]), enc_int(args[1])
-        elif m in ("seek", "pull_bytes", "push_uint_var"):
+        elif m in ("seek", "pull_bytes", "push_uint_var", "push_uint8", "push_uint16", "push_uint32", "push_uint64"):
             b["a"] = enc_int(args[0])
         self.emit(b)
         kind, ret = "ok", -1
